@@ -16,6 +16,11 @@
                         assignment OUTSIDE its loop nest (fixes/C01_guard_outside_loops.patch;
                         false: ForLoop(..., IfThenElse(guard, stmt, Null)), the bounds are evaluated
                         and the loops run although the guard is false)
+ * c03_prec_*         : the precedence FortranExpressionMapper's map_logical_or / map_logical_and /
+                        map_logical_not hand to their operands (`_child`) and claim for themselves
+                        (`_own`): the names are read off the three methods (exact shapes), the
+                        numbers off pymbolic/mapper/stringifier.py (third party, pinned in /venv),
+                        where parenthesize_if_needed must still be `if enclosing_prec > my_prec`
  * c03_ret_prefixes   : the three slots written by emit_inst_YieldState, in order
  fail-closed only: emit_inst_FailStep ends with goto 999; emit_return emits goto 999;
  lower_function emits label 999 right after lower_ast; process_ast's pass order.
@@ -96,6 +101,64 @@ def guard_outside(repo):
                                                                                  if isinstance(n, ast.Expr)]:
         raise ShapeError("dag_ast.py create_ast_from_phase: main_block.append(loop_to_ast_node(statement)) not found")
     return res
+
+
+def logical_precedences(repo):
+    """(or_child, or_own, and_child, and_own, not_child, not_own) as numbers"""
+    import os
+    ex = _parse(repo, "dagrt/codegen/expressions.py")
+    fm = _find_class(ex, "FortranExpressionMapper")
+    names = {}
+    for meth, sep in (("map_logical_or", " .or. "), ("map_logical_and", " .and. ")):
+        b = _body(_find_def(fm, meth))
+        ok = False
+        if len(b) == 2 and b[0].startswith("from pymbolic.mapper.stringifier import PREC_"):
+            ret = _find_def(fm, meth).body[-1]
+            if isinstance(ret, ast.Return) and isinstance(ret.value, ast.Call) \
+                    and _src(ret.value.func) == "self.parenthesize_if_needed" and len(ret.value.args) == 3:
+                j, enc, own = ret.value.args
+                if isinstance(j, ast.Call) and _src(j.func) == "self.join_rec" and len(j.args) == 3 \
+                        and isinstance(j.args[0], ast.Constant) and j.args[0].value == sep \
+                        and _src(j.args[1]) == "expr.children" and isinstance(j.args[2], ast.Name) \
+                        and _src(enc) == "enclosing_prec" and isinstance(own, ast.Name):
+                    names[meth] = (j.args[2].id, own.id)
+                    ok = True
+        if not ok:
+            raise ShapeError("expressions.py FortranExpressionMapper.%s: unrecognised body %r" % (meth, b))
+    b = _body(_find_def(fm, "map_logical_not"))
+    ret = _find_def(fm, "map_logical_not").body[-1]
+    ok = False
+    if len(b) == 2 and isinstance(ret, ast.Return) and isinstance(ret.value, ast.Call) \
+            and _src(ret.value.func) == "self.parenthesize_if_needed" and len(ret.value.args) == 3:
+        t, enc, own = ret.value.args
+        if isinstance(t, ast.BinOp) and isinstance(t.op, ast.Add) and isinstance(t.left, ast.Constant) \
+                and t.left.value == ".not. " and isinstance(t.right, ast.Call) and _src(t.right.func) == "self.rec" \
+                and len(t.right.args) == 2 and _src(t.right.args[0]) == "expr.child" \
+                and isinstance(t.right.args[1], ast.Name) and _src(enc) == "enclosing_prec" and isinstance(own, ast.Name):
+            names["map_logical_not"] = (t.right.args[1].id, own.id)
+            ok = True
+    if not ok:
+        raise ShapeError("expressions.py FortranExpressionMapper.map_logical_not: unrecognised body %r" % b)
+    # the numbers and the parenthesisation rule, from the pinned pymbolic
+    import pymbolic.mapper.stringifier as st
+    path = st.__file__
+    tree = ast.parse(open(path).read(), filename=path)
+    consts = {}
+    for n in tree.body:
+        if isinstance(n, ast.Assign) and len(n.targets) == 1 and isinstance(n.targets[0], ast.Name) \
+                and n.targets[0].id.startswith("PREC_") and isinstance(n.value, ast.Constant):
+            consts[n.targets[0].id] = n.value.value
+    sm = _find_class(tree, "StringifyMapper")
+    pin = _body(_find_def(sm, "parenthesize_if_needed"))
+    if pin != ["if enclosing_prec > my_prec:\n    return f'({s})'\nelse:\n    return s"]:
+        raise ShapeError("pymbolic StringifyMapper.parenthesize_if_needed: unrecognised body %r" % pin)
+    out = []
+    for meth in ("map_logical_or", "map_logical_and", "map_logical_not"):
+        for nm in names[meth]:
+            if nm not in consts or not isinstance(consts[nm], int) or consts[nm] < 0:
+                raise ShapeError("precedence constant %s not found in pymbolic" % nm)
+            out.append(consts[nm])
+    return out, names
 
 
 def facts(repo):
@@ -206,7 +269,7 @@ def facts(repo):
         ne = True
     else:
         raise ShapeError("expressions.py FortranExpressionMapper.map_comparison: unrecognised body %r" % _body(mc[0]))
-    return dict(ne=ne, cond=cond, ordered=ordered, go=guard_outside(repo), m1=m1, sw=sw, nf=nf, slots=slots, passes=passes)
+    return dict(ne=ne, cond=cond, ordered=ordered, go=guard_outside(repo), prec=logical_precedences(repo), m1=m1, sw=sw, nf=nf, slots=slots, passes=passes)
 
 
 def generate(repo):
@@ -223,6 +286,11 @@ def generate(repo):
     out.append("Definition c03_next_first : bool := %s." % coq_bool(f["nf"]))
     out.append("(* dagrt/codegen/dag_ast.py loop_to_ast_node *)")
     out.append("Definition c03_guard_outside : bool := %s." % coq_bool(f["go"]))
+    nums, names = f["prec"]
+    out.append("(* FortranExpressionMapper map_logical_or %r, map_logical_and %r, map_logical_not %r (child, own) *)"
+               % (names["map_logical_or"], names["map_logical_and"], names["map_logical_not"]))
+    for nm, z in zip(("or_child", "or_own", "and_child", "and_own", "not_child", "not_own"), nums):
+        out.append("Definition c03_prec_%s : nat := %d." % (nm, z))
     out.append("Definition c03_ret_prefixes : list string := %s." % coq_string_list(f["slots"]))
     out.append("Definition c03_passes : list string := %s." % coq_string_list(f["passes"]))
     return "\n".join(out) + "\n"
